@@ -92,8 +92,8 @@ class Probe:
         self.rec = rec
         self.reset()
 
-    def reset(self, kind=None, k=None, exc=None, level="group"):
-        self.kind, self.k, self.exc, self.level = kind, k, exc, level
+    def reset(self, kind=None, k=None, exc=None, level="group", msg="text"):
+        self.kind, self.k, self.exc, self.level, self.msg = kind, k, exc, level, msg
         self.group_calls = 0
         self.matrix_calls = 0
         self.fired = False
@@ -120,7 +120,9 @@ class Probe:
                 probe.fired = True
                 probe.fired_phase = probe.phase
                 probe.fired_obj_call = probe.obj_calls
-                probe.injected = probe.exc(f"vf injected fault at group evaluation {probe.k}")
+                text = f"vf injected fault at group evaluation {probe.k}"
+                # exceptions without a message (bare assert, ZeroDivisionError()) and with several lines occur too
+                probe.injected = probe.exc() if probe.msg == "empty" else probe.exc(text + ("\nsecond line: details of the failure" if probe.msg == "multiline" else ""))
                 raise probe.injected
             return orig_calc(self_, parameters)
 
@@ -202,7 +204,7 @@ def run_one(case, probe, rec, method, verbose, raise_exception, redirect, fault,
 
     scheme = S.build_scheme(case, maximum_number_function_evaluations=case.get("max_nfev", 4), optimization_method=method)
     snap = snapshot(scheme)
-    probe.reset(fault.get("kind"), fault.get("k"), EXC.get(fault.get("exc", "ValueError")), fault.get("level", "group"))
+    probe.reset(fault.get("kind"), fault.get("k"), EXC.get(fault.get("exc", "ValueError")), fault.get("level", "group"), fault.get("msg", "text"))
     from glotaran.optimization.optimizer import InitialParameterError  # noqa: F811
 
     def call():
@@ -500,7 +502,7 @@ def run_shard(spec, rec):
             for raise_exception in (False, True):
                 for redirect in (False, True):
                     i += 1
-                    fault = {"kind": "exception", "level": "group", "k": k, "exc": excs[(i + k) % 4]}
+                    fault = {"kind": "exception", "level": "group", "k": k, "exc": excs[(i + k) % 4], "msg": ["text", "empty", "multiline"][(i + 2 * k) % 3]}
                     out = run_one(case, probe, rec, method, verbose, raise_exception, redirect, fault)
                     ctxd = {"scheme": spec["scheme"], "method": method, "fault": fault, "verbose": verbose, "raise_exception": raise_exception, "stdout_redirected": redirect}
                     if probe.fired:
